@@ -28,6 +28,9 @@ def qm(m):
 def ssmcase(c):
     if "err" in c:
         return "CFlagS false"
+    if c["kind"] == "hmm_long":
+        # decided by the Interval-based file (run_long); here only non-finite results are flagged
+        return "CFlagS true" if c.get("skip") or c.get("finite") else "CFlagS false"
     if c["kind"] == "hmm":
         if not c["bs_path_ok"]:
             return "CFlagS false"
@@ -80,6 +83,37 @@ def run(ctx):
             coq_errs.append(r["error"])
         else:
             bad += [(off + i, a, s, x) for (i, a, s, x) in r["bad"]]
+    # --- long sequences: Interval decides |log marginal - ln(exact rational marginal)| <= tol
+    long_idx = [i for i, c in enumerate(cases) if c["kind"] == "hmm_long" and not c.get("skip") and c.get("finite") and "err" not in c]
+    verdicts = Counter()
+    if long_idx:
+        import re
+        vf = os.path.join(ctx.scratch, "cases_ssm_long.v")
+        lines = []
+        for i in long_idx:
+            c = cases[i]
+            ys = "[" + "; ".join(n(y) for y in c["ys"]) + "]"
+            lines.append(f"hmm_long {n(i)} {n(c['K'])} {ql(c['pi0'])} {qm(c['A'])} {qm(c['E'])} {ys} {q(c['lm'])} {q(c['tol'])} {ql(c['filt'])}.")
+        open(vf, "w").write("From Coq Require Import Reals QArith List. Import ListNotations.\n"
+                            "From GV Require Import Model.CorrSsmLong.\nGoal True.\n" + "\n".join(lines) + "\nexact I.\nQed.\n")
+        pr = subprocess.run(["timeout", "1500", "coqc", "-Q", common.COQ, "GV", vf], capture_output=True, text=True)
+        out = pr.stdout + pr.stderr
+        got = {int(i): v for i, v in re.findall(r"CASE (\d+)(?:%nat)? (OK|BADFILTER|BAD|UNDECIDED)", out)}
+        if pr.returncode != 0:
+            coq_errs.append(out[-1500:])
+        else:
+            for i in long_idx:
+                v = got.get(i)
+                verdicts[v] += 1
+                if v == "OK":
+                    continue
+                if v in ("BAD", "BADFILTER"):
+                    bad.append((i, False, False, False))
+                elif v == "UNDECIDED":
+                    bad.append((i, False, True, True))
+                else:
+                    coq_errs.append(f"long case {i}: no verdict")
+        bad.sort()
     nt = len({json.dumps({k: v for k, v in c.items() if k in ("K", "ys", "A", "E", "C", "P0", "ds", "do")}, sort_keys=True)
               for c in cases if "err" not in c and len(c["ys"]) >= 2})
     return {"cases": cases, "bad": bad, "worker_errs": worker_errs, "coq_errs": coq_errs,
@@ -87,11 +121,14 @@ def run(ctx):
                          "rule": "HMM: random rational initial / transition / emission tables (1-4 states, 2-4 symbols, 40% with sparse transition rows), sequences of length "
                                  "1-5: filtering distributions, marginal likelihood, sequence probability of a reachable path and the probability backward sampling assigns to it "
                                  "(logits recorded under scripted draws) compared with the forward-recursion model AND with brute-force enumeration of all state sequences; "
+                                 "HMM long: 2-3 states, sequences of length 70-250 (log marginal far below the float32 exp underflow): log marginal compared with ln of the exact rational "
+                                 "marginal of the vector recursion by the Interval tactic (tolerance 0.02 + 5e-5|lm|), last filtering distribution in probability space; "
                                  "Kalman: random rational models with d_state, d_obs in 1..3 (70% with d_obs != d_state), T in 1..4: filtered and smoothed moments and the log "
                                  "marginal likelihood compared with the recursion model AND with dense joint-Gaussian conditioning (tolerance 2e-4, lml through rational exp "
                                  "enclosures); non-trivial = distinct case with T >= 2",
                          "histogram": {"kinds": Counter(c["kind"] for c in cases),
-                                       "T": Counter(len(c["ys"]) for c in cases),
+                                       "T": Counter(len(c["ys"]) for c in cases), "long_verdicts": verdicts,
+                                       "long_log_marginals": sorted(round(c["log_marginal_float"], 1) for c in cases if "log_marginal_float" in c)[:6],
                                        "dims": Counter(f"{c.get('ds')}x{c.get('do')}" for c in cases if c["kind"] == "kal"),
                                        "errors": Counter(c.get("err", "")[:70] for c in cases if "err" in c)},
                          "samples": [{k: v for k, v in c.items() if k not in ("filt", "fc", "sc", "fm", "sm")} for c in cases[:2]]}}
